@@ -288,3 +288,242 @@ Proof.
   pose proof (process_apks_fuel perm (g_fs g) (nonce_of g) (g_apks g) (base_doc g)) as H.
   destruct (process_apks _ _ _ _ _); simpl; try discriminate; congruence.
 Qed.
+
+(* ---- Generate without embedded SBOMs ---------------------------------------------------------- *)
+Lemma process_apks_plain perm fs nonce apks : forall d,
+  (forall a, In a apks -> locate fs (candidates (a_name a) (a_version a)) = None) ->
+  process_apks perm fs nonce apks d =
+    Ok {| d_pkgs := d_pkgs d ++ List.map (apk_package nonce) apks; d_rels := d_rels d; d_desc := d_desc d |}.
+Proof.
+  induction apks as [|a apks IH]; intros d H; simpl.
+  - rewrite app_nil_r. destruct d; reflexivity.
+  - unfold process_internal. rewrite (H a (or_introl eq_refl)). simpl.
+    rewrite IH by (intros; apply H; right; assumption). simpl. rewrite <- app_assoc. reflexivity.
+Qed.
+
+Lemma generate_plain perm g : NoEmbedded g -> g_layers g <> [] ->
+  generate perm g = Ok {| d_pkgs := dedup_pkgs [] (own_elements g);
+                          d_rels := d_rels (base_doc g); d_desc := d_desc (base_doc g) |}.
+Proof.
+  intros NE L. unfold generate. destruct (g_layers g) eqn:E; [congruence|].
+  rewrite process_apks_plain by exact NE. reflexivity.
+Qed.
+
+Lemma add_source_refs vcs parent d : RefsResolve d -> In parent (ids d) -> RefsResolve (add_source vcs parent d).
+Proof.
+  intros [A B] P. unfold add_source, RefsResolve, ids; simpl. split.
+  - intros r Hr. rewrite map_app, !in_app_iff. apply in_app_or in Hr. destruct Hr as [Hr|[<-|[]]].
+    + destruct (A r Hr). tauto.
+    + simpl. split; [left; exact P | right; left; reflexivity].
+  - intros x Hx. rewrite map_app, in_app_iff. left. apply B, Hx.
+Qed.
+
+Lemma base_doc_refs g : g_layers g <> [] -> RefsResolve (base_doc g).
+Proof.
+  intro L. unfold base_doc. destruct (String.eqb (g_image g) "").
+  - split; simpl; [intros r []|]. intros x Hx.
+    destruct (rev (List.map (layer_package (g_osver g)) (g_layers g))) as [|l t] eqn:E; [destruct Hx|].
+    destruct Hx as [<-|[]]. unfold ids; simpl. apply in_map. apply in_rev. rewrite E. left; reflexivity.
+  - set (ip := image_package (g_image g)). set (lps := List.map (layer_package (g_osver g)) (g_layers g)).
+    assert (RefsResolve {| d_pkgs := ip :: lps;
+              d_rels := List.map (fun l => {| r_elem := p_id ip; r_type := "CONTAINS"; r_related := p_id l |}) lps;
+              d_desc := [p_id ip] |}) as R.
+    { split; unfold ids; simpl.
+      - intros r Hr. apply in_map_iff in Hr. destruct Hr as (l & <- & Hl). simpl.
+        split; [left; reflexivity | right; apply in_map, Hl].
+      - intros x [<-|[]]. left; reflexivity. }
+    destruct (String.eqb (g_vcs g) ""); [exact R|]. apply add_source_refs; [exact R|]. left; reflexivity.
+Qed.
+
+Lemma generate_plain_refs perm g d : NoEmbedded g -> generate perm g = Ok d -> RefsResolve d.
+Proof.
+  intros NE H. pose proof (generate_inv _ _ _ H) as (L & _). rewrite (generate_plain perm g NE L) in H.
+  inversion H; subst. apply (refs_resolve_more_pkgs (base_doc g)); [apply base_doc_refs, L|].
+  intros x Hx. apply dedup_pkgs_spec. split; [|intros []].
+  unfold own_elements. rewrite map_app, in_app_iff. left. exact Hx.
+Qed.
+
+Lemma nodup_app_r {A} (l1 l2 : list A) : NoDup (l1 ++ l2) -> NoDup l2.
+Proof. induction l1 as [|a l1 IH]; simpl; intro N; [exact N | inversion N; auto]. Qed.
+
+(* exactly one element per installed apk when no two pre-de-duplication ids coincide *)
+Lemma elem_of_b_iff a p : elem_of_b a p = true <-> ElemOf a p.
+Proof.
+  unfold elem_of_b, ElemOf. rewrite !andb_true_iff, !String.eqb_eq. unfold sums_eqb.
+  rewrite (list_eqb_spec (fun x y => String.eqb (fst x) (fst y) && String.eqb (snd x) (snd y))).
+  - tauto.
+  - intros [x1 x2] [y1 y2]. simpl. rewrite andb_true_iff, !String.eqb_eq. split; [intros [-> ->]; reflexivity | intro E; inversion E; tauto].
+Qed.
+
+Lemma apk_package_elem nonce a : ElemOf a (apk_package nonce a).
+Proof. repeat split. Qed.
+
+Lemma elem_same_id nonce a b : ElemOf a (apk_package nonce b) -> p_id (apk_package nonce b) = p_id (apk_package nonce a).
+Proof. intros (N & V & _). simpl in *. rewrite N, V. reflexivity. Qed.
+
+Lemma generate_plain_unique_ids perm g d : NoEmbedded g -> NoDup (List.map p_id (own_elements g)) ->
+  generate perm g = Ok d -> d_pkgs d = own_elements g.
+Proof.
+  intros NE N H. pose proof (generate_inv _ _ _ H) as (L & _). rewrite (generate_plain perm g NE L) in H.
+  inversion H; subst; simpl. apply dedup_pkgs_nodup_id; [exact N | intros x _ []].
+Qed.
+
+Lemma one_elem_of_apks nonce apks : NoDup (List.map (fun a => p_id (apk_package nonce a)) apks) ->
+  forall a, In a apks -> OneElem a (List.map (apk_package nonce) apks).
+Proof.
+  intros N a Ha. apply in_split in Ha. destruct Ha as (l1 & l2 & ->).
+  exists (List.map (apk_package nonce) l1), (apk_package nonce a), (List.map (apk_package nonce) l2).
+  split; [rewrite map_app; reflexivity|]. split; [apply apk_package_elem|].
+  intros q Hq E. rewrite <- map_app in Hq. apply in_map_iff in Hq. destruct Hq as (b & <- & Hb).
+  apply elem_same_id in E. rewrite map_app in N. cbn [List.map] in N. apply NoDup_remove_2 in N.
+  apply N. rewrite <- map_app. cbn beta. rewrite <- E. apply (in_map (fun a => p_id (apk_package nonce a))), Hb.
+Qed.
+
+Lemma matches_installed_of_apks nonce apks : NoDup (List.map (fun a => p_id (apk_package nonce a)) apks) ->
+  MatchesInstalled apks (List.map (apk_package nonce) apks).
+Proof.
+  intro N. split; [apply one_elem_of_apks, N|].
+  intros p Hp. apply in_map_iff in Hp. destruct Hp as (a & <- & Ha). exists a. split; [exact Ha | apply apk_package_elem].
+Qed.
+
+Lemma generate_one_per_apk perm g d : NoEmbedded g -> NoDup (List.map p_id (own_elements g)) ->
+  generate perm g = Ok d ->
+  d_pkgs d = d_pkgs (base_doc g) ++ List.map (apk_package (nonce_of g)) (g_apks g) /\
+  MatchesInstalled (g_apks g) (List.map (apk_package (nonce_of g)) (g_apks g)).
+Proof.
+  intros NE N H. split; [apply (generate_plain_unique_ids perm g d NE N H)|].
+  apply matches_installed_of_apks. unfold own_elements in N. rewrite map_app in N.
+  apply nodup_app_r in N. rewrite map_map in N. exact N.
+Qed.
+
+(* ---- digests -------------------------------------------------------------------------------------- *)
+Lemma layer_in_base g h : In h (g_layers g) -> In (layer_package (g_osver g) h) (d_pkgs (base_doc g)).
+Proof.
+  intro H. apply (in_map (layer_package (g_osver g))) in H. unfold base_doc.
+  destruct (String.eqb (g_image g) ""); simpl; [exact H|].
+  destruct (String.eqb (g_vcs g) ""); simpl; [right; exact H|]. right. apply in_or_app. left. exact H.
+Qed.
+
+Lemma generate_plain_image perm g d : NoEmbedded g -> g_image g <> "" -> generate perm g = Ok d ->
+  DescribesImage (g_image g) d.
+Proof.
+  intros NE I H. pose proof (generate_inv _ _ _ H) as (L & _). rewrite (generate_plain perm g NE L) in H.
+  inversion H; subst; clear H. apply String.eqb_neq in I.
+  exists (image_package (g_image g)). unfold DescribesImage, own_elements, base_doc. rewrite I.
+  destruct (String.eqb (g_vcs g) ""); simpl; (split; [left; reflexivity | repeat split]).
+Qed.
+
+Lemma generate_plain_layers perm g d : NoEmbedded g -> NoDup (ids (base_doc g)) -> generate perm g = Ok d ->
+  NamesLayers (g_layers g) d.
+Proof.
+  intros NE N H. pose proof (generate_inv _ _ _ H) as (L & _). rewrite (generate_plain perm g NE L) in H.
+  inversion H; subst; clear H. intros h Hh. exists (layer_package (g_osver g) h). split; [|reflexivity].
+  simpl. pose proof (layer_in_base g h Hh) as Hin. apply in_split in Hin. destruct Hin as (l1 & l2 & E).
+  unfold own_elements. unfold ids in N. rewrite E in *. rewrite <- app_assoc. simpl.
+  apply dedup_pkgs_keeps_first; [|intros []].
+  rewrite map_app in N. cbn [List.map] in N. apply NoDup_remove_2 in N. intro Hx. apply N. apply in_or_app. left; exact Hx.
+Qed.
+
+(* ---- GenerateIndex ---------------------------------------------------------------------------------- *)
+Lemma index_id_fixed h : sti (p_id (index_package h)) = p_id (index_package h).
+Proof. unfold index_package; cbn [p_id]. rewrite sti_pfx_app, sti_idempotent. reflexivity. Qed.
+
+Lemma generate_index_refs x d : generate_index x = Ok d -> RefsResolve d.
+Proof.
+  unfold generate_index. destruct (x_images x) as [|h0 t] eqn:E; [discriminate|]. intro H. inversion H; subst; clear H.
+  set (ip := index_package (x_index x)). set (ims := List.map arch_image_package (h0 :: t)).
+  assert (RefsResolve {| d_pkgs := ip :: ims;
+            d_rels := List.map (fun i => {| r_elem := sti (p_id ip); r_type := "VARIANT_OF"; r_related := p_id i |}) ims;
+            d_desc := [p_id ip] |}) as R.
+  { split; unfold ids; cbn [d_pkgs d_rels d_desc].
+    - intros r Hr. apply in_map_iff in Hr. destruct Hr as (i & <- & Hi). cbn [r_elem r_related].
+      unfold ip at 1. rewrite index_id_fixed. split; [left; reflexivity | right; apply in_map, Hi].
+    - intros y [<-|[]]. cbn [List.map]. left; reflexivity. }
+  destruct (String.eqb (x_vcs x) ""); [exact R|]. apply add_source_refs; [exact R | left; reflexivity].
+Qed.
+
+Lemma generate_index_digests x d : generate_index x = Ok d ->
+  (exists p, In p (d_pkgs d) /\ p_name p = hash_string (x_index x) /\
+             p_sums p = [("SHA256", snd (x_index x))] /\ d_desc d = [p_id p]) /\
+  (forall h, In h (x_images x) -> exists p, In p (d_pkgs d) /\ p_sums p = [("SHA256", snd h)] /\
+             In {| r_elem := p_id (index_package (x_index x)); r_type := "VARIANT_OF"; r_related := p_id p |} (d_rels d)).
+Proof.
+  unfold generate_index. destruct (x_images x) as [|h0 t] eqn:E; [discriminate|]. intro H. inversion H; subst; clear H.
+  split.
+  - exists (index_package (x_index x)). destruct (String.eqb (x_vcs x) ""); simpl; (split; [left; reflexivity | repeat split]).
+  - intros h Hh. exists (arch_image_package h).
+    assert (In (arch_image_package h) (List.map arch_image_package (h0 :: t))) as Hi by (apply in_map, Hh).
+    assert (In {| r_elem := p_id (index_package (x_index x)); r_type := "VARIANT_OF"; r_related := p_id (arch_image_package h) |}
+              (List.map (fun i => {| r_elem := sti (p_id (index_package (x_index x))); r_type := "VARIANT_OF"; r_related := p_id i |})
+                        (List.map arch_image_package (h0 :: t)))) as Hr.
+    { rewrite index_id_fixed. apply (in_map (fun i => {| r_elem := p_id (index_package (x_index x)); r_type := "VARIANT_OF"; r_related := p_id i |})), Hi. }
+    destruct (String.eqb (x_vcs x) ""); cbn [d_pkgs d_rels add_source].
+    + split; [right; exact Hi | split; [reflexivity | exact Hr]].
+    + split; [apply in_or_app; left; right; exact Hi | split; [reflexivity | apply in_or_app; left; exact Hr]].
+Qed.
+
+(* ---- the two refutations ---------------------------------------------------------------------------- *)
+Definition collide_witness : gen_in :=
+  {| g_image := "sha256:ab"; g_layers := [("sha256", "cd")]; g_osver := "1"; g_vcs := "";
+     g_apks := [ {| a_name := "gtk+"; a_version := "3.24-r0"; a_sum := [1]%N |};
+                 {| a_name := "gtkC43"; a_version := "3.24-r0"; a_sum := [2]%N |} ];
+     g_fs := [] |}.
+
+Lemma one_per_apk_refuted : exists g, NoEmbedded g /\
+  NoDup (List.map (fun a => (a_name a, a_version a)) (g_apks g)) /\
+  forall perm, exists d, generate perm g = Ok d /\
+    exists a, In a (g_apks g) /\ forall p, In p (d_pkgs d) -> ~ ElemOf a p.
+Proof.
+  exists collide_witness. split; [intros a _; reflexivity|]. split.
+  - constructor; [intros [E|[]]; discriminate E | constructor; [intros [] | constructor]].
+  - intro perm. eexists. split; [vm_compute; reflexivity|].
+    exists {| a_name := "gtkC43"; a_version := "3.24-r0"; a_sum := [2]%N |}. split; [right; left; reflexivity|].
+    intros p Hp E. apply elem_of_b_iff in E.
+    match type of Hp with In _ ?l =>
+      assert (existsb (elem_of_b {| a_name := "gtkC43"; a_version := "3.24-r0"; a_sum := [2]%N |}) l = true) as X
+        by (apply existsb_exists; eauto) end.
+    vm_compute in X. discriminate X.
+Qed.
+
+Definition foo_elem := {| p_id := "SPDXRef-Package-foo-1.0-r0"; p_name := "foo"; p_version := "1.0-r0"; p_sums := [] |}.
+Definition bar_elem := {| p_id := "SPDXRef-Package-bar-2.0-r1"; p_name := "bar"; p_version := "2.0-r1"; p_sums := [] |}.
+Definition foo_sbom : doc :=
+  {| d_pkgs := [foo_elem; bar_elem];
+     d_rels := [{| r_elem := p_id foo_elem; r_type := "DEPENDS_ON"; r_related := p_id bar_elem |}];
+     d_desc := [p_id foo_elem] |}.
+Definition bar_sbom : doc := {| d_pkgs := [bar_elem]; d_rels := []; d_desc := [p_id bar_elem] |}.
+Definition replace_self_witness : gen_in :=
+  {| g_image := "sha256:ab"; g_layers := [("sha256", "cd")]; g_osver := "1"; g_vcs := "";
+     g_apks := [ {| a_name := "foo"; a_version := "1.0-r0"; a_sum := [1]%N |};
+                 {| a_name := "bar"; a_version := "2.0-r1"; a_sum := [2]%N |} ];
+     g_fs := [("foo-1.0-r0.spdx.json", FDoc foo_sbom); ("bar-2.0-r1.spdx.json", FDoc bar_sbom)] |}.
+
+(* both embedded documents are themselves well-formed, each apk has exactly one
+   target (so the map order is immaterial), and yet the result has a dangling
+   reference: bar's element arrived with foo's SBOM, so when bar is processed
+   the first package named bar IS the imported element and
+   replacePackage(id, id) deletes it *)
+Lemma replace_self_refuted : exists g d,
+  (forall k e, In (k, FDoc e) (g_fs g) -> RefsResolve e /\ IdsUnique e /\ Forall ValidId (ids e)) /\
+  (forall a, In a (g_apks g) -> forall e, locate (g_fs g) (candidates (a_name a) (a_version a)) = Some (FDoc e) ->
+     List.length (targets (a_name a) e) = 1%nat) /\
+  generate (fun l => l) g = Ok d /\ ~ RefsResolve d /\
+  In (p_id bar_elem) (List.map r_related (d_rels d)) /\ ~ In (p_id bar_elem) (ids d).
+Proof.
+  exists replace_self_witness. eexists. split; [|split; [|split; [vm_compute; reflexivity|]]].
+  - intros k e [E|[E|[]]]; inversion E; subst; (split; [apply refs_resolve_b_iff; vm_compute; reflexivity|]);
+      (split; [apply nodup_b_iff; vm_compute; reflexivity|]);
+      repeat constructor; apply valid_id_b_iff; vm_compute; reflexivity.
+  - intros a [<-|[<-|[]]] e H; vm_compute in H; inversion H; subst; reflexivity.
+  - split; [|split].
+    + intro R. apply refs_resolve_b_iff in R. vm_compute in R. discriminate R.
+    + apply mem_In. vm_compute. reflexivity.
+    + apply mem_false. vm_compute. reflexivity.
+Qed.
+
+Lemma generate_plain_digests perm g d : NoEmbedded g -> generate perm g = Ok d ->
+  (g_image g <> "" -> DescribesImage (g_image g) d) /\
+  (NoDup (ids (base_doc g)) -> NamesLayers (g_layers g) d).
+Proof.
+  intros NE H. split; [intro I; exact (generate_plain_image perm g d NE I H) | intro N; exact (generate_plain_layers perm g d NE N H)].
+Qed.
